@@ -91,6 +91,7 @@ def check_recipe(r, tier, seed, rep=None, want=None):
                 continue
             if rep:
                 rep.transitions += 1
+                rep.outcomes[f"{path}:derivative-is-{type(ge).__name__}"] += 1
             foreign = var.name == FOREIGN
             for k in (okidx if foreign else idx):
                 pd = c.point(k)
